@@ -63,16 +63,19 @@ Section MoveReport.
   Qed.
 
   Theorem c02_move_readable sl o i cs' : Permutation fcs cs' ->
-    (forall x, In x cs -> forall y, names s (norm (move_target dir (mpath (cmd_victim x)))) <> Some (NLink y)) ->
     let out := run_script sl o i cs' s in
     forall fc res, In (fc, res) (combine cs' (sresults out)) -> res = IOk ->
     forall i0 d0, names s (victim fc) = Some (NFile i0) -> inodes s i0 = Some d0 ->
     exists j dj, names (sfs out) (move_target_of fc) = Some (NFile j) /\ inodes (sfs out) j = Some dj /\ ibytes dj = ibytes d0.
   Proof.
-    intros HP Hnl. pose proof (moves_ok_perm _ _ _ HP report_moves_ok) as Hok.
+    intros HP. pose proof (moves_ok_perm _ _ _ HP report_moves_ok) as Hok.
     apply (moves_readable sl o cs' i s Hok).
-    intros fc Hfc y. apply (Permutation_in _ (Permutation_sym HP)) in Hfc. unfold fcs in Hfc.
-    apply in_map_iff in Hfc. destruct Hfc as (x & <- & Hx). destruct (move_cmds_shape x Hx) as (src & rn & ->).
-    cbn [fcmd_of move_target_of]. apply (Hnl _ Hx y).
+  Qed.
+
+  (* the target of the command for a dropped file is move_target DIR path (normalised by the kernel) *)
+  Lemma move_target_shape fc : In fc fcs -> exists src rn now, fc = FMove (mpath src) (move_target dir (mpath src)) rn now.
+  Proof.
+    unfold fcs. intros Hfc. apply in_map_iff in Hfc. destruct Hfc as (x & <- & Hx).
+    destruct (move_cmds_shape x Hx) as (src & rn & ->). cbn [fcmd_of]. eauto.
   Qed.
 End MoveReport.
